@@ -77,7 +77,10 @@ class SpecGen:
         if c < 0.8:
             return {'c': [rfloat(r, 1.3, 1.8, 4), rfloat(r, 0, 0.1, 5)]}
         if c < 0.9 and not self.plain_only and self.npscalars:
-            return {'np': 'complex128', 'v': {'c': [1.5, 0.01]}}
+            # full double precision in both parts (e.g. a computed index)
+            return {'np': 'complex128', 'v': {'c': [
+                r.choice([1.5, rfloat(r, 1.3, 1.8, 16)]),
+                r.choice([0.01, rfloat(r, 0, 0.1, 17)])]}}
         return self.prior()
 
     def seq(self, items):
@@ -463,6 +466,13 @@ class C15:
         npath = 0
         paths = []
         for _ in range(rng.randint(1, 4)):
+            if rng.random() < 0.15:
+                # a process-global numpy print option the user prefers
+                b.emit('env_option', {'kind': 'np_print', 'value': rng.choice([
+                    {'legacy': '1.13'}, {'legacy': '1.13'}, {'precision': 4},
+                    {'legacy': False},
+                    {'legacy': '1.25'}, {'floatmode': 'fixed'},
+                    {'suppress': True}])}, tags={'k': 'env'})
             g.plain_only = rng.random() < 0.35
             spec, kind = g.any()
             spec = _fix_exprs(spec)
